@@ -118,3 +118,79 @@ package hclsyntax
 //@ props C09
 //@ pure
 //@ ensures token.Type != TokenIdent ==> !ret
+
+// ---- newline-stack discipline of the native parser (unit U11) ----
+// verif:unit U11 props=C15
+
+// verif:func newPeeker
+//@ nosafety
+//@ assigns nothing
+//@ ensures fresh(ret) && ret != nil && len(ret.IncludeNewlinesStack) == 1
+
+// verif:func (*peeker).includingNewlines
+//@ requires len(p.IncludeNewlinesStack) >= 1
+//@ pure
+
+// verif:func (*peeker).nextToken
+//@ nosafety
+//@ requires len(p.IncludeNewlinesStack) >= 1
+//@ pure
+
+// verif:func (*peeker).Peek
+//@ nosafety
+//@ requires len(p.IncludeNewlinesStack) >= 1
+//@ pure
+
+// verif:func (*peeker).Read
+//@ nosafety
+//@ requires len(p.IncludeNewlinesStack) >= 1
+//@ assigns p
+//@ ensures len(p.IncludeNewlinesStack) == old(len(p.IncludeNewlinesStack))
+
+// verif:func (*peeker).NextRange
+//@ nosafety
+//@ requires len(p.IncludeNewlinesStack) >= 1
+//@ pure
+
+// verif:func (*peeker).PrevRange
+//@ nosafety
+//@ requires len(p.IncludeNewlinesStack) >= 1
+//@ pure
+
+// verif:func (*peeker).PushIncludeNewlines
+//@ nosafety
+//@ assigns p, p.newlineStackChanges[*], p.IncludeNewlinesStack[*]
+//@ ensures len(p.IncludeNewlinesStack) == old(len(p.IncludeNewlinesStack)) + 1
+
+// A frame may only be popped by the code that pushed it: the bottom frame stays.
+// verif:func (*peeker).PopIncludeNewlines
+//@ nosafety
+//@ requires len(p.IncludeNewlinesStack) >= 2
+//@ assigns p, p.newlineStackChanges[*]
+//@ ensures len(p.IncludeNewlinesStack) == old(len(p.IncludeNewlinesStack)) - 1
+
+// verif:func (*peeker).AssertEmptyIncludeNewlinesStack
+//@ requires balanced: len(p.IncludeNewlinesStack) == 1
+//@ pure
+
+// Every parser method leaves the newline stack as deep as it found it (and never
+// replaces the peeker), on every path including all error-recovery paths.
+// verif:methods (*parser).*
+//@ nosafety
+//@ requires p.peeker != nil && len(p.peeker.IncludeNewlinesStack) >= 1
+//@ ensures depth: len(p.peeker.IncludeNewlinesStack) == old(len(p.peeker.IncludeNewlinesStack))
+//@ ensures samePeeker: p.peeker == old(p.peeker)
+//@ loopall invariant p.peeker == old(p.peeker) && len(p.peeker.IncludeNewlinesStack) == atentry(len(p.peeker.IncludeNewlinesStack))
+
+// Entry points: the newline stack is balanced when the parser returns, so the
+// stack-discipline assertion (a panic) is unreachable for every input.
+// verif:func ParseConfig
+//@ nosafety
+// verif:func ParseExpression
+//@ nosafety
+// verif:func ParseTemplate
+//@ nosafety
+// verif:func ParseTraversalAbs
+//@ nosafety
+// verif:func ParseTraversalPartial
+//@ nosafety
